@@ -223,5 +223,35 @@ def run_c09(ctx, replay):
     _run(ctx, replay, "C09")
 
 
+def known_finding_probe_c10(ctx) -> None:
+    """The concrete input of the recorded finding C10:ConFIG:null_direction_with_zero_row_depends_on_row_order is
+    evaluated on every run (all row orders, both dtypes), so that the KNOWN-FINDING line is printed whatever the
+    seed and disappears - nothing else changes - the day the defect is repaired."""
+    import itertools
+    import torch
+    from torchjd.aggregation import ConFIG
+    J = [[0.0, 2.0], [0.0, -7.0], [0.0, 0.0]]
+    for dt in (torch.float64, torch.float32):
+        Jt = torch.tensor(J, dtype=dt)
+        outs = {}
+        for perm in itertools.permutations(range(3)):
+            try:
+                outs[perm] = [float(x) + 0.0 for x in ConFIG()(Jt[list(perm)])]
+            except Exception as e:                                   # noqa: BLE001
+                outs[perm] = f"{type(e).__name__}"
+        ctx.evaluations += len(outs)
+        vals = list(outs.values())
+        if any(isinstance(v, str) for v in vals):
+            continue                                                 # an exception here is C09 / C11's business
+        ref = vals[0]
+        if any(max(abs(a - b) for a, b in zip(v, ref)) > 1e-3 for v in vals):
+            ctx.violation("C10:ConFIG:null_direction_with_zero_row_depends_on_row_order",
+                          f"ConFIG()(J[perm]) for J = {J} ({str(dt).replace('torch.', '')}) depends on the order of the rows: "
+                          f"{ {str(k): v for k, v in outs.items()} }",
+                          {"kind": "known_probe", "J": J})
+
+
 def run_c10(ctx, replay):
+    if not replay:
+        known_finding_probe_c10(ctx)
     _run(ctx, replay, "C10")
